@@ -29,7 +29,7 @@ pub enum Scen {
     Swept,
 }
 
-#[derive(Clone, Debug)]
+#[derive(Clone, Debug, Serialize, Deserialize)]
 pub struct NodeCfg {
     pub scen: Scen,
     pub max_ops: usize,
@@ -259,6 +259,10 @@ fn op_kind(op: &Op) -> String {
 impl Model for NodeModel {
     type Op = Op;
     type State = NState;
+
+    fn cfg_json(&self) -> serde_json::Value {
+        serde_json::to_value(&self.cfg).unwrap()
+    }
 
     fn name(&self) -> String {
         format!("nodemc({:?},ops<={}{})", self.cfg.scen, self.cfg.max_ops, if self.cfg.monitors { ",monitors" } else { "" })
@@ -494,6 +498,12 @@ impl Model for NodeModel {
         }
         let _ = json!(null);
     }
+}
+
+pub fn replay_ops(v: &serde_json::Value) -> Vec<Vio> {
+    let cfg: NodeCfg = serde_json::from_value(v["cfg"].clone()).expect("nodemc cfg");
+    let ops: Vec<Op> = serde_json::from_value(v["ops"].clone()).expect("nodemc ops");
+    crate::vmc::replay(&NodeModel { cfg }, &ops)
 }
 
 pub struct NodeRun {
